@@ -29,7 +29,17 @@ func c06Pick() []int {
 // schedule the response equals the (schedule-free) reference and no two
 // unordered accesses touch the same location.
 func Harness_C06_schedules() {
-	fi := c06Families[zzsym.Choice("family", len(c06Families))]
+	fams := c06Families
+	if zzsym.Param("merge", 0) == 1 {
+		// only the families whose list elements of different concrete types merge type-conditioned selections
+		fams = nil
+		for _, i := range c06Families {
+			if strings.Contains(c01Families[i].query, "... on ") {
+				fams = append(fams, i)
+			}
+		}
+	}
+	fi := fams[zzsym.Choice("family", len(fams))]
 	fam := c01Families[fi]
 	vars := map[string]any{}
 	for _, v := range fam.flags {
